@@ -38,7 +38,7 @@ try:
             if v:
                 break
         meta['detected'] = any(x['n_classes'] for x in meta['checks'].values())
-        if not meta['detected']:
+        if not meta['detected'] and not os.environ.get('SEEDTEST_NO_OTHERS'):
             # does the check of another property catch it?  (quick tier of every other check)
             others = {}
             for q in ['C%02d' % i for i in range(1, 21)]:
